@@ -6,7 +6,7 @@ import re
 from .lib import decision, guards, paths
 from .lib.mir import AnchorLost
 
-CONFIGS_QUICK = ["A"]
+CONFIGS_QUICK = ["A", "R"]
 CONFIGS_THOROUGH = ["A", "R", "ASYNCSTD", "SMOL", "NIO", "GLOMMIO", "NOAPI"]
 TECHNIQUE = "field-exhaustiveness of the reset functions against the ADT tables + event-order rules (dominance / reachability avoiding an event) on the session coroutine's built MIR"
 LEVEL_TEXT = ('Decides clauses C05-a/b: every field of Request (and of request Headers, Context, IndexMap, TupleMap) that holds per-request state is reassigned or cl'
@@ -128,6 +128,8 @@ def c05a(ck, prog):
     nfields = 0
     for sty, adtkey in targets:
         f = prog.method(sty, "clear")
+        # the resets may sit in private helpers of the same type (`self.reset_parsed()`, `Self::zero(&mut self.buf)`)
+        f = prog.inlined(f, 2, lambda caller, callee: callee.crate == caller.crate and callee.self_ty == caller.self_ty and callee.name != "clear" and len(callee.blocks) < 60)
         adt = prog.adts.get(adtkey)
         if adt is None:
             raise AnchorLost("ADT %s not found" % adtkey)
@@ -160,6 +162,7 @@ def c05a(ck, prog):
     ck.ob(R, "Request.method:overwritten-by-read", ok, rd.loc(None), "" if ok else "Request::read can yield a request without having stored its method: the previous request's method would be used", how="store to .method dominates every Ok(Some(()))")
     # the reset as a whole is skipped only when nothing was read
     f = prog.method(r"^ohkami::request::Request$", "clear")
+    f = prog.inlined(f, 2, lambda caller, callee: callee.crate == caller.crate and callee.self_ty == caller.self_ty and callee.name != "clear" and len(callee.blocks) < 60)
     resets = [c.bb for c in f.calls() if c.name == "clear"] + [bi for bi, st, agg in decision.field_stores(f, "payload")]
     conds = set()
     for bb in resets:
